@@ -125,4 +125,97 @@ theorem autf_utf8_eq (s : List Char) : utf8 s = utf8Encode s := by
   | nil => rfl
   | cons c s ih => simp only [List.flatMap_cons, List.map_append, ih, autf_encChar_eq]
 
+/-! ### the converse: the decoder accepts only the encodings -/
+
+theorem autf_toNat_ofNat (n : Nat) (h : n < 0xD800 ∨ (0xDFFF < n ∧ n < 0x110000)) : (Char.ofNat n).toNat = n := by
+  have hv : n.isValidChar := h
+  unfold Char.ofNat
+  rw [dif_pos hv]
+  unfold Char.ofNatAux Char.toNat
+  have : n < UInt32.size := by unfold UInt32.size; omega
+  simp [UInt32.toNat_ofNatLT]
+
+theorem autf_w1 (b0 : Nat) (h : b0 < 0x80) : utf8EncNat (Char.ofNat b0).toNat = [b0] := by
+  rw [autf_toNat_ofNat b0 (by omega)]; simp [utf8EncNat, h]
+
+theorem autf_w2 (b0 b1 : Nat) (h0 : 0xC2 ≤ b0 ∧ b0 ≤ 0xDF) (h1 : utf8Cont b1 = true) :
+    utf8EncNat (Char.ofNat ((b0 - 0xC0) * 64 + (b1 - 0x80))).toNat = [b0, b1] := by
+  simp only [utf8Cont, Bool.and_eq_true, decide_eq_true_eq] at h1
+  rw [autf_toNat_ofNat _ (by omega)]
+  unfold utf8EncNat
+  have a1 : ¬ ((b0 - 0xC0) * 64 + (b1 - 0x80) < 0x80) := by omega
+  have a2 : (b0 - 0xC0) * 64 + (b1 - 0x80) < 0x800 := by omega
+  simp only [a1, a2, if_true, if_false, List.cons.injEq, and_true]
+  omega
+
+theorem autf_w3 (b0 b1 b2 : Nat) (h0 : 0xE0 ≤ b0 ∧ b0 ≤ 0xEF) (h1 : utf8Second3 b0 b1 = true)
+    (h2 : utf8Cont b2 = true) :
+    utf8EncNat (Char.ofNat ((b0 - 0xE0) * 4096 + (b1 - 0x80) * 64 + (b2 - 0x80))).toNat = [b0, b1, b2] := by
+  simp only [utf8Cont, Bool.and_eq_true, decide_eq_true_eq] at h2
+  have h1' : 0x80 ≤ b1 ∧ b1 ≤ 0xBF ∧ (b0 = 0xE0 → 0xA0 ≤ b1) ∧ (b0 = 0xED → b1 ≤ 0x9F) := by
+    unfold utf8Second3 utf8Cont at h1
+    repeat' split at h1
+    all_goals simp only [Bool.and_eq_true, decide_eq_true_eq] at h1
+    all_goals omega
+  rw [autf_toNat_ofNat _ (by omega)]
+  unfold utf8EncNat
+  have a1 : ¬ ((b0 - 0xE0) * 4096 + (b1 - 0x80) * 64 + (b2 - 0x80) < 0x80) := by omega
+  have a2 : ¬ ((b0 - 0xE0) * 4096 + (b1 - 0x80) * 64 + (b2 - 0x80) < 0x800) := by omega
+  have a3 : (b0 - 0xE0) * 4096 + (b1 - 0x80) * 64 + (b2 - 0x80) < 0x10000 := by omega
+  simp only [a1, a2, a3, if_true, if_false, List.cons.injEq, and_true]
+  omega
+
+theorem autf_w4 (b0 b1 b2 b3 : Nat) (h0 : 0xF0 ≤ b0 ∧ b0 ≤ 0xF4) (h1 : utf8Second4 b0 b1 = true)
+    (h2 : utf8Cont b2 = true) (h3 : utf8Cont b3 = true) :
+    utf8EncNat (Char.ofNat ((b0 - 0xF0) * 262144 + (b1 - 0x80) * 4096 + (b2 - 0x80) * 64 + (b3 - 0x80))).toNat
+      = [b0, b1, b2, b3] := by
+  simp only [utf8Cont, Bool.and_eq_true, decide_eq_true_eq] at h2 h3
+  have h1' : 0x80 ≤ b1 ∧ b1 ≤ 0xBF ∧ (b0 = 0xF0 → 0x90 ≤ b1) ∧ (b0 = 0xF4 → b1 ≤ 0x8F) := by
+    unfold utf8Second4 utf8Cont at h1
+    repeat' split at h1
+    all_goals simp only [Bool.and_eq_true, decide_eq_true_eq] at h1
+    all_goals omega
+  rw [autf_toNat_ofNat _ (by omega)]
+  unfold utf8EncNat
+  have a1 : ¬ ((b0 - 0xF0) * 262144 + (b1 - 0x80) * 4096 + (b2 - 0x80) * 64 + (b3 - 0x80) < 0x80) := by omega
+  have a2 : ¬ ((b0 - 0xF0) * 262144 + (b1 - 0x80) * 4096 + (b2 - 0x80) * 64 + (b3 - 0x80) < 0x800) := by omega
+  have a3 : ¬ ((b0 - 0xF0) * 262144 + (b1 - 0x80) * 4096 + (b2 - 0x80) * 64 + (b3 - 0x80) < 0x10000) := by omega
+  simp only [a1, a2, a3, if_false, List.cons.injEq, and_true]
+  omega
+
+/-- whatever the decoder accepts is the encoding of what it returns -/
+theorem autf_decNat_sound (l : List Nat) (s : List Char) (h : utf8DecNat l = some s) :
+    l = s.flatMap fun c => utf8EncNat c.toNat := by
+  fun_induction utf8DecNat l generalizing s
+  case case1 => cases h; rfl
+  case case2 b0 r hb ih =>
+    obtain ⟨s', hs', rfl⟩ := Option.map_eq_some_iff.mp h
+    rw [List.flatMap_cons, autf_w1 b0 hb, ← ih s' hs']; rfl
+  case case3 b0 _ h0 b1 r h1 ih =>
+    obtain ⟨s', hs', rfl⟩ := Option.map_eq_some_iff.mp h
+    rw [List.flatMap_cons, autf_w2 b0 b1 h0 h1, ← ih s' hs']; rfl
+  case case6 b0 _ _ h0 b1 b2 r h1 ih =>
+    obtain ⟨s', hs', rfl⟩ := Option.map_eq_some_iff.mp h
+    simp only [Bool.and_eq_true] at h1
+    rw [List.flatMap_cons, autf_w3 b0 b1 b2 h0 h1.1 h1.2, ← ih s' hs']; rfl
+  case case9 b0 _ _ _ h0 b1 b2 b3 r h1 ih =>
+    obtain ⟨s', hs', rfl⟩ := Option.map_eq_some_iff.mp h
+    simp only [Bool.and_eq_true] at h1
+    rw [List.flatMap_cons, autf_w4 b0 b1 b2 b3 h0 h1.1.1 h1.1.2 h1.2, ← ih s' hs']; rfl
+  all_goals cases h
+
+theorem autf_ofNat_toNat_map (l : List UInt8) : (l.map UInt8.toNat).map UInt8.ofNat = l := by
+  induction l with
+  | nil => rfl
+  | cons b l ih => simp only [List.map_cons, ih, UInt8.ofNat_toNat]
+
+/-- `from_utf8(bs) = Ok(s)` only if `bs` is `s.as_bytes()` -/
+theorem autf_decode_sound (bs : List UInt8) (s : List Char) (h : utf8Decode bs = some s) : bs = utf8Encode s := by
+  unfold utf8Decode at h
+  unfold utf8Encode
+  rw [← autf_decNat_sound _ s h, autf_ofNat_toNat_map]
+
+theorem autf_decode_iff (bs : List UInt8) (s : List Char) : utf8Decode bs = some s ↔ bs = utf8Encode s :=
+  ⟨autf_decode_sound bs s, fun h => h ▸ autf_decode_encode s⟩
+
 end Cook.Aisle
